@@ -1,9 +1,4 @@
 // ================= U12 prelude: TRUSTED stand-ins =================
-pub const KECCAK_EMPTY: B256 = B256(0xc5d2);
-impl AccountInfo {
-    pub fn is_empty_code_hash(&self) -> (b: bool) ensures b == (self.code_hash == KECCAK_EMPTY) { self.code_hash == KECCAK_EMPTY }
-    pub fn clone(&self) -> (r: Self) ensures r == *self { *self }
-}
 /// revm::Database as implemented by IncarnationDb (only the extracted methods)
 trait Database {
     type Error;
